@@ -54,7 +54,7 @@ HookStep(S, h, nI, nR) ==
   CASE h.k = "clause" -> [S EXCEPT !.models = Filter(S.models, h.lits)]
     [] h.k = "learnt" ->
          IF h.o = 2 THEN [S EXCEPT !.models = Filter(S.models, h.lits)]    \* the no-good of next(): a new clause
-         ELSE [S EXCEPT !.ok = S.ok /\ Chk({"C07", "C09", "C10", "C02"}, "LearntEntailed",
+         ELSE [S EXCEPT !.ok = S.ok /\ Chk({"C07", "C09", "C10", "C02", "C11", "C12"}, "LearntEntailed",
                                            (\A m \in S.models : ClauseSat(m, h.lits)) = TRUE)]
     [] h.k = "lra" ->
          LET e == LSub(LinOfJson(h.l), LinOfJson(h.r))
@@ -210,7 +210,7 @@ Step(ev) ==
   IN /\ ev.n >= n
      /\ S.ok
      /\ Chk({"C07"}, "Decisions", DecsOK(ev))
-     /\ Chk({"C07", "C09", "C10"}, "FalseOnlyIfUnsat", FalseOnlyIfUnsat(ev, M))
+     /\ Chk({"C07", "C09", "C10", "C11", "C12"}, "FalseOnlyIfUnsat", FalseOnlyIfUnsat(ev, M))
      /\ Chk({"C07", "C08", "C13", "C14"}, "Sound", SoundVals(MD, ev.vals) = TRUE)
      /\ Chk({"C07", "C09", "C10"}, "CompleteIsModel",
             (ev.stable = 1 /\ Complete(ev.vals) /\ MD # {}) => ModelOfVals(ev.vals) \in M)
@@ -232,7 +232,7 @@ Step(ev) ==
      /\ Chk({"C14"}, "OvDomain", OvDomainOK(ev, S.ovs))
      \* C09
      /\ Chk({"C09", "C11"}, "LraValuesAreModel", stable => LraValuesOK(S.atoms, ev, defs2))
-     /\ Chk({"C09"}, "LraBoundsContainSolutions", (stable /\ changed) => LraBoundsOK(S.atoms, ev, vis2, defs2))
+     /\ Chk({"C09", "C11"}, "LraBoundsContainSolutions", (stable /\ changed) => LraBoundsOK(S.atoms, ev, vis2, defs2))
      \* C10
      /\ Chk({"C10", "C12"}, "IdlDistancesExact", (stable /\ changed) => DlExact(S.atoms, ev, "idl", nI, IdlD(ev)))
      /\ Chk({"C10", "C12"}, "RdlDistancesExact", (stable /\ changed) => DlExact(S.atoms, ev, "rdl", nR, RdlD(ev)))
